@@ -2,3 +2,5 @@ import FlatModel.Props.C11
 #print axioms FC.C11.hit_or_miss
 #print axioms FC.C11.forgets_on_reset
 #print axioms FC.C11.only_equal
+#print axioms FC.C11.last_tracks
+#print axioms FC.C11.adjacent
